@@ -9,7 +9,7 @@ from ..core import Outcome, violation
 ID = "C12"
 RULE = ("Histories of 1..120 operations (thorough: 300) on the facade returned by LDMFactory (Dictionary back-end, reactive maintenance and "
         "service on a virtual clock): register / deregister provider and consumer (valid and invalid application ids and permissions), add "
-        "(CAM / DENM / VAM / POI dictionaries, validity 0..30 s, placed inside the area of maintenance, right at the LDM position, or far "
+        "(CAM / DENM / VAM / POI dictionaries, validity 0..30 s and very long ones (1e5 s, 2^32-1 s, beyond the 42-bit timestamp range), placed inside the area of maintenance, right at the LDM position, or far "
         "outside), update (existing / unknown id, same / other type, registered / unregistered requester), delete (same classes), unfiltered "
         "request per type selection, explicit collect_trash, clock advance 0..12 s. A reference map id -> (provider, timestamp, location, "
         "content, validity) plus two registries predicts every response; after every step every stored object is read back through "
@@ -34,9 +34,9 @@ def op_s():
         st.fixed_dictionaries({"op": st.just("dereg_p"), "app": app}),
         st.fixed_dictionaries({"op": st.just("reg_c"), "app": app, "perm": st.sampled_from(["own", "own", "other", "none"])}),
         st.fixed_dictionaries({"op": st.just("dereg_c"), "app": app}),
-        st.fixed_dictionaries({"op": st.just("add"), "app": app, "type": st.sampled_from(["cam", "cam", "vam", "denm", "poi"]), "validity": st.sampled_from([0, 1, 2, 5, 30]),
+        st.fixed_dictionaries({"op": st.just("add"), "app": app, "type": st.sampled_from(["cam", "cam", "vam", "denm", "poi"]), "validity": st.sampled_from([0, 1, 2, 5, 30, 30, 100000, 4294967295, 4398046511]),
                                "place": st.sampled_from(["inside", "inside", "inside", "inside", "near", "outside"]), "seed": st.sampled_from([0, 0, 1]) | st.integers(0, 999)}),
-        st.fixed_dictionaries({"op": st.just("add"), "app": app, "type": st.sampled_from(["cam", "cam", "vam", "denm", "poi"]), "validity": st.sampled_from([0, 1, 2, 5, 30]),
+        st.fixed_dictionaries({"op": st.just("add"), "app": app, "type": st.sampled_from(["cam", "cam", "vam", "denm", "poi"]), "validity": st.sampled_from([0, 1, 2, 5, 30, 30, 100000, 4294967295, 4398046511]),
                                "place": st.sampled_from(["inside", "inside", "inside", "inside", "near", "outside"]), "seed": st.integers(0, 999)}),
         st.fixed_dictionaries({"op": st.just("update"), "app": app, "ref": st.integers(0, 40), "type": st.sampled_from(["same", "same", "other"]), "seed": st.integers(0, 999)}),
         st.fixed_dictionaries({"op": st.just("delete"), "app": app, "ref": st.integers(0, 40)}),
